@@ -83,7 +83,7 @@ static int uprobe_xfer_throw(struct uprobe *uprobe, struct upipe *upipe,
     if (found->signature) {
         va_list args_copy;
         va_copy(args_copy, args);
-        uint32_t signature = va_arg(args, uint32_t);
+        uint32_t signature = va_arg(args_copy, uint32_t);
         va_end(args_copy);
         if (found->signature != signature)
             return uprobe_throw_next(uprobe, upipe, event, args);
